@@ -199,6 +199,10 @@ def check(repo: Repo, run: Run) -> None:
         return rec
 
     run.borrow(repo, "C04", "C03.X4", construction_only, 1, transform=only_own)
+    # S6: the interpreter binds a macro variable in a flat clone, the compiled helpers in a chain of nested
+    # activations searched by resolve_name: the two agree on a shadowed name only if the innermost scope wins
+    # the tie (instances shared with C12.N3)
+    run.borrow(repo, "C12", "C03.S6", lambda o: o["rule"] == "C12.N3", 1)
     run.borrow(repo, "C05", "C03.S4", lambda o: o["rule"].startswith("C05.H") and any(k in o["key"] for k in ("Transpiler", "CompiledRunner", "Phase1", "Phase2")), 3)
     ev = repo.mod("evaluation")
     g = grammar(repo)
